@@ -26,6 +26,7 @@ CInitH(h) ==
                phs |-> <<>>,         \* connect phases in progress [k: start | finish, on: connection, op: user call start |
                                      \* finish | connect]; more than one only while an abandoned attempt is still unwinding
                dc |-> <<>>,          \* connections a disconnect() call is still running on (one entry per call)
+               nstop |-> 0,          \* how often the application's stop callback has been invoked
                wf |-> {},            \* connections whose transport raises on write from now on (broken pipe, reset)
                dn |-> <<>>,          \* operations that ended in this callback: <<op, class>>
                gate |-> "none" ]     \* verdict of the API gate in this callback: none | open | shut | shut_in_stop
@@ -47,7 +48,7 @@ Rank(v) == CASE v = "init" -> 0 [] v = "opened" -> 1 [] v = "hsdone" -> 2 [] v =
 Close(x, i) ==
   IF x.st[i] = "closed" THEN x
   ELSE LET stop == x.ever[i] /\ x.st[i] = "connected"
-           y == [x EXCEPT !.st[i] = "closed", !.ptr = IF stop THEN 0 ELSE @]
+           y == [x EXCEPT !.st[i] = "closed", !.ptr = IF stop THEN 0 ELSE @, !.nstop = IF stop THEN @ + 1 ELSE @]
        IN IF ~stop \/ x.hook = "none" THEN y
           ELSE IF x.hook = "start"
                THEN [y EXCEPT !.st = Append(@, "init"), !.ever = Append(@, FALSE), !.ptr = Len(y.st) + 1,
@@ -160,6 +161,8 @@ RefusedOnlyWhenBusy ==
        (c.ptr # 0 /\ (c.st[c.ptr] \in Live \/ Busy(c, c.ptr)))
 \* at most one connection is alive and it is the one the client points to (or one being torn down)
 OneLive == \A i \in 1..N(c) : c.st[i] \in Live => (c.ptr = i \/ Busy(c, i))
+\* C07 at the client level: one stop callback per session that was established and has ended
+StopsMatchSessions == c.nstop = Cardinality({i \in 1..N(c) : c.ever[i] /\ c.st[i] = "closed"})
 GateSound == (c.gate = "open") => (c.ptr # 0 /\ c.st[c.ptr] = "connected")
 PointerValid == c.ptr \in 0..N(c)
 Forward == [][\A i \in 1..N(c) : Rank(c'.st[i]) >= Rank(c.st[i])]_c
